@@ -567,7 +567,7 @@ pub fn run(args: &[String]) {
     }
 
     // (b) map histories
-    let depth = tier.pick(3, 4);
+    let depth = tier.pick(4, 4);
     let ins = insert_universe();
     let stats = run_map(depth, &ins, &names);
     for (fp, what, case) in stats.violations {
